@@ -276,12 +276,30 @@ def tree_geometry(c):
             for ch in (l, r):
                 if ch >= n:
                     h[ch] = bound[ch] + t["ratios"][ch - n] * (h[node] - bound[ch])
+    if t.get("keep"):
+        # keep_branch_lengths on a dated newick whose lengths need not be clock-like: every node sits at the
+        # largest child height + max(1e-6, length) (heights_from_branch_lengths)
+        L = keep_lengths(topo, h, t["keep"])
+        h = {i: th[i] for i in range(n)}
+        for node, l, r in topo.post:
+            h[node] = max(h[l] + max(1e-6, L[l]), h[r] + max(1e-6, L[r]))
     ck = t["clock"]
     bl = {}
     for ch, par in topo.parent.items():
         rate = ck["rate"] if ck["kind"] == "strict" else ck["rates"][ch]
         bl[ch] = rate * (h[par] - h[ch])
     return topo, names, dates, bl, h
+
+
+def keep_lengths(topo, h, factors):
+    """newick lengths of a time tree written with `keep`: clock-like lengths times a per-branch factor"""
+    return {ch: (h[par] - h[ch]) * factors[ch] for ch, par in topo.parent.items()}
+
+
+def _clocklike_heights(c):
+    t = dict(c["tree"])
+    t.pop("keep", None)
+    return tree_geometry(dict(c, tree=t))[4]
 
 
 def like_spec(c, ids=None):
@@ -312,6 +330,9 @@ def like_spec(c, ids=None):
     else:
         tree = {"id": "tree", "type": "ReparameterizedTimeTreeModel", "newick": topo.newick(names), "taxa": "taxa",
                 "shifts": P("shifts", t["shifts"])}
+    if t.get("keep") and not kind.startswith("unrooted"):
+        tree["newick"] = topo.newick(names, keep_lengths(topo, _clocklike_heights(c), t["keep"]))
+        tree["keep_branch_lengths"] = True
     seqs = []
     for i in c["seq_order"]:
         seqs.append({"taxon": names[i], "sequence": "".join(col[i] for col in c["cols"])})
